@@ -17,9 +17,16 @@ import (
 
 // stepW2 is one call on the LZMA2 writer.
 type stepW2 struct {
-	Op  string   `json:"op"` // write | write0 | flush | close
-	Seg *gen.Seg `json:"seg,omitempty"`
+	Op   string     `json:"op"` // write | write0 | flush | close
+	Seg  *gen.Seg   `json:"seg,omitempty"`
+	More gen.Recipe `json:"more,omitempty"` // further segments handed over in the same Write call
 }
+
+// recipe returns the payload of a write step.
+func (s stepW2) recipe() gen.Recipe { return append(gen.Recipe{*s.Seg}, s.More...) }
+
+// payload expands the payload of a write step.
+func (s stepW2) payload() []byte { return s.recipe().Expand() }
 
 // caseC08 is a call history on an LZMA2 writer.
 type caseC08 struct {
@@ -70,11 +77,47 @@ func drawC08(t *rapid.T) caseC08 {
 	if !closed {
 		c.Steps = append(c.Steps, stepW2{Op: "close"})
 	}
+	if c.Cfg.Matcher == 0 && rapid.IntRange(0, 9).Draw(t, "bigwrite") == 0 {
+		// ONE Write call that crosses both chunk limits: poorly compressible
+		// data (a chunk closed by the 64 KiB compressed limit, leaving bytes
+		// pending in the look-ahead) followed by more than 2 MiB of highly
+		// compressible data (the 2 MiB uncompressed limit of the next chunk)
+		rnd := func() gen.Seg {
+			return gen.Seg{Kind: "random", Len: rapid.IntRange(66000, 140000).Draw(t, "bwrnd"), Seed: rapid.Uint64().Draw(t, "bwseed")}
+		}
+		run := func() gen.Seg {
+			return gen.Seg{Kind: "run", B: rapid.Byte().Draw(t, "bwbyte"), Len: rapid.IntRange(2097152-70000, 2097152+150000).Draw(t, "bwrun")}
+		}
+		var segs gen.Recipe
+		switch rapid.IntRange(0, 2).Draw(t, "bwshape") {
+		case 0:
+			segs = gen.Recipe{rnd(), run()}
+		case 1:
+			segs = gen.Recipe{run(), rnd(), run()}
+		case 2:
+			segs = gen.Recipe{{Kind: "text", K: 26, Len: rapid.IntRange(150000, 400000).Draw(t, "bwtxt"), Seed: rapid.Uint64().Draw(t, "bwtseed")}, run()}
+		}
+		var steps []stepW2
+		if rapid.Bool().Draw(t, "bwprefix") {
+			pre := gen.Seg{Kind: "text", K: 4, Len: rapid.IntRange(1, 5000).Draw(t, "bwpre"), Seed: 11}
+			steps = append(steps, stepW2{Op: "write", Seg: &pre})
+			if rapid.Bool().Draw(t, "bwpreflush") {
+				steps = append(steps, stepW2{Op: "flush"})
+			}
+		}
+		first := segs[0]
+		steps = append(steps, stepW2{Op: "write", Seg: &first, More: segs[1:]})
+		if rapid.Bool().Draw(t, "bwflush") {
+			steps = append(steps, stepW2{Op: "flush"})
+		}
+		c.Steps = append(steps, stepW2{Op: "close"})
+	}
 	if c.Cfg.Matcher == 1 {
 		for i := range c.Steps {
 			if s := c.Steps[i].Seg; s != nil {
-				r := clampForBT(gen.Recipe{*s}, 12000)
+				r := clampForBT(c.Steps[i].recipe(), 12000)
 				*s = r[0]
+				c.Steps[i].More = r[1:]
 			}
 		}
 	}
@@ -104,7 +147,7 @@ func runW2(c caseC08, obs w2Observer) *ev.Failure {
 		var p []byte
 		switch st.Op {
 		case "write":
-			p = gen.Recipe{*st.Seg}.Expand()
+			p = st.payload()
 			n, err = w.Write(p)
 		case "write0":
 			n, err = w.Write(nil)
@@ -156,8 +199,8 @@ func checkC08(c caseC08, rec *ev.Rec) *ev.Failure {
 		}
 		switch st.Op {
 		case "write":
-			if n != st.Seg.Len {
-				return ev.Fail(fmt.Sprintf("step %d: Write of %d bytes returned n=%d", i, st.Seg.Len, n), append(sig, "stage", "call", "result", "short_write")...)
+			if want := st.recipe().Len(); n != want {
+				return ev.Fail(fmt.Sprintf("step %d: Write of %d bytes returned n=%d", i, want, n), append(sig, "stage", "call", "result", "short_write")...)
 			}
 		case "flush":
 			if !pending && len(sink) != before {
@@ -250,7 +293,7 @@ func stepsString(s []stepW2) string {
 		}
 		r += st.Op
 		if st.Seg != nil {
-			r += fmt.Sprintf("(%s %d)", st.Seg.Kind, st.Seg.Len)
+			r += "(" + st.recipe().String() + ")"
 		}
 	}
 	return r
